@@ -53,7 +53,8 @@ func (c *Config) VerifyConfig(schema base.LogSchema) error {
 func (tf *truncateTransform) Transform(record *base.LogRecord) base.FilterResult {
 	value := tf.keyLocator.Get(record.Fields)
 	if len(value) > tf.maxLength+len(tf.suffix) {
-		valueB := util.BytesFromString(value)
+		// copy what is kept: the value may share memory with other fields, config strings or constants
+		valueB := []byte(value[:tf.maxLength+len(tf.suffix)])
 
 		// truncate and clean up before the maxLength in case of UTF-8 sequences cut in the middle
 		valueTrimmed := util.CleanUTF8(valueB[:tf.maxLength])
